@@ -178,7 +178,7 @@ func rep(t *rt.Thread, c *rt.GoCont) (rt.Cont, error) {
 	}
 	n := int(ln)
 	if n < 0 {
-		return nil, errors.New("#2 out of range")
+		n = 0 // a non-positive count gives the empty string
 	}
 	var sep []byte
 	if c.NArgs() >= 3 {
